@@ -177,7 +177,7 @@ def extract(repo):
     pretc_return_at = dm.group(1)
     sc = _strip(open(os.path.join(repo, "src/clutils/Str.cc")).read())
     cb = re.sub(r"\s+", "", _body(sc, "Severity CheckRemainingInput( istream & in, ErrorDescriptor * err,"))
-    # (since C05-15 the skip also ends at the record's `;` outside a string: `!endOfRecord &&`; a value of the token model has no `;`)
+    # (since C05-15 / C05-19 the skip also ends at the first `;`, quoted or not: `!endOfRecord &&`; a value of the token model has no `;`)
     gm = re.search(r"if\((?:!endOfRecord&&)?IsDelimiter\(delimiterList,c\)\)\{in\.putback\(c\);.*?err->GreaterSeverity\((SEVERITY_\w+)\);\}else\{", cb)
     if not gm or "charc=in.peek();if(!IsDelimiter(delimiterList,c)){" not in cb:
         raise ValueError("CheckRemainingInput: recovery branch changed")
